@@ -309,6 +309,8 @@ func (m *Model) externalEffects(f *ssa.Function, ef *Effects) {
 		ef.ghost["$out"] = true
 	case "fmt.Print", "fmt.Printf", "fmt.Println":
 		ef.ghost["$out"] = true
+	case "sort.Strings":
+		ef.heap["M$string"] = "Str"
 	case "fmt.Errorf", "errors.New":
 		ef.ghost["$faulted"] = true
 	}
